@@ -1,6 +1,8 @@
 package c18
 
 import (
+	"fmt"
+	"strings"
 	"time"
 
 	"mellium.im/xmpp/muc"
@@ -10,14 +12,16 @@ import (
 	"mellium.im/xmpp/verifharness/stall"
 )
 
-// forcedCase is one of M1–M3 of DESIGN.md appendix C.
+// forcedCase is one of M1–M3 of DESIGN.md appendix C, or M4/M5: the caller of
+// Join/Leave is held at its yield point until the room's error reply has been
+// processed by the request goroutine, and must still get the room's error.
 type forcedCase struct {
 	Kind     string `json:"kind"`
 	Scenario string `json:"scenario"`
 }
 
 func runForced(c *core.Case) {
-	fc := &forcedCase{Kind: "forced", Scenario: []string{"M1", "M2", "M3"}[(c.Index/8)%3]}
+	fc := &forcedCase{Kind: "forced", Scenario: []string{"M1", "M2", "M3", "M4", "M5"}[(c.Index/8)%5]}
 	c.Sample(fc)
 	execForced(c, fc)
 }
@@ -126,7 +130,77 @@ func execForced(c *core.Case, fc *forcedCase) {
 		do(step{Op: "await", Label: "l", Must: true})
 		rule.Release()
 		do(step{Op: "barrier"}) // the serve loop must still be alive: no panic, no stall
+	case "M4", "M5":
+		// The caller is held just before its final select while the room
+		// answers the request with an error for its id.  Only when that reply has
+		// been taken in by the library as far as it goes without the caller — the
+		// serve loop answers a following ping (the request goroutine is done), or
+		// the request goroutine is parked handing the error over — is the caller
+		// released.  Its context is never cancelled: the room's stanza error is
+		// the only legal result.  Repeated, so that a result that depends on a
+		// coin flip in a select does not slip through.
+		point, op := "muc.join.wait", "join"
+		if fc.Scenario == "M5" {
+			point, op = "muc.leave.wait", "leave"
+			if !joinNormally() {
+				break
+			}
+		}
+		for k := 0; k < refusalsPerForcedCase && !d.aborted; k++ {
+			label := fmt.Sprintf("%s%d", op[:1], k)
+			rule := ctl.Park(point, addr)
+			do(step{Op: op, Label: label})
+			if !rule.WaitArrived(grace) {
+				c.Notef("%s: caller never reached %s", fc.Scenario, point)
+				rule.Release()
+				break
+			}
+			if !do(step{Op: "seen", Label: label}) {
+				rule.Release()
+				break
+			}
+			do(step{Op: "error", Label: label, Cond: roomErrors[k%len(roomErrors)][1]})
+			d.nbar++
+			bk := d.nbar
+			bid := w.barrierSend(bk)
+			answered := false
+			for try := 0; try < 100 && !answered; try++ {
+				if answered = w.barrierWait(bk, bid, 2*time.Millisecond); answered {
+					break
+				}
+				handingOver := false
+				for _, p := range stall.Snapshot(isMucWait) {
+					if _, old := base[p.ID]; !old && p.ID != d.calls[label].gid && strings.Contains(p.Func, "Presence.func") {
+						handingOver = true
+					}
+				}
+				if handingOver {
+					break
+				}
+			}
+			if answered {
+				c.Count("forced_"+fc.Scenario+"_reply_processed_before_release", 1)
+			} else {
+				c.Count("forced_"+fc.Scenario+"_request_goroutine_waiting_for_caller", 1)
+			}
+			c.Count("forced_"+fc.Scenario+"_reached", 1)
+			rule.Release()
+			do(step{Op: "await", Label: label, Must: true})
+			if !answered && !d.aborted && !w.barrierWait(bk, bid, hardLimit) {
+				select {
+				case <-w.served:
+					d.sessionEnded()
+				default:
+					c.Inconclusive("%s: the ping sent after the error reply was never answered", fc.Scenario)
+				}
+				d.aborted = true
+			}
+		}
+		do(step{Op: "barrier"})
 	}
 	finish()
 	c.Count("forced_scenarios", 1)
 }
+
+// refusalsPerForcedCase: refused calls per M4/M5 case.
+const refusalsPerForcedCase = 16
